@@ -25,12 +25,17 @@ func main() {
 		core.Infra("no progress for %s while %s", since, label)
 	})
 	if args.Replay != "" {
-		dbreplay.ReplayCrashFile(rep, "C05", args.Replay)
+		if !acReplayFile(rep, args.Replay) {
+			dbreplay.ReplayCrashFile(rep, "C05", args.Replay)
+		}
 		rep.Finish()
 	}
 	stages := []dbreplay.Stage{
 		{Name: "crash-rb-3pg-3ops", Cfg: "MC_DBFile_crash_rb.cfg", Timeout: 10 * time.Minute, MaxKeep: core.Pick(args, 250, 2500), LastIs: "Crash"},
 		{Name: "crash-wal-2pg-4ops", Cfg: "MC_DBFile_crash_wal.cfg", Timeout: 15 * time.Minute, MaxKeep: core.Pick(args, 350, 3500), LastIs: "Crash"},
+	}
+	if os.Getenv("C05_STAGES") == "applycrash" { // development aid: only the stage of ApplyCrash.tla
+		stages = nil
 	}
 	cfgs := dbreplay.StdConfigs(!args.Quick())
 	survivors := 0
@@ -88,5 +93,8 @@ func main() {
 		}
 	}
 	rep.Extra["survivor_directories_reopened"] = survivors
+	// crash points inside LiteFS-internal operations (spec/ApplyCrash.tla): replica apply of a streamed
+	// file / snapshot / drop, LiteFS's own checkpoint and recovery, DB.Drop, a crash during DB.Open itself
+	runApplyCrash(rep, args)
 	rep.Finish()
 }
